@@ -31,6 +31,20 @@ PLAN = {
 }
 
 
+PLAN["C15"] = dict(
+    verus=dict(quick=[], thorough=[]),
+    kani=dict(quick=["dtype_isnone", "dtype_cast", "dtype_sortcmp"], thorough=["dtype_isnone", "dtype_cast", "dtype_sortcmp"]),
+    level="proof",
+    level_text="Kani/CBMC proves every clause for the real compiled impls of tea-dtype over the FULL bit domain of each scalar type "
+               "(loop-free harnesses, kani::any()): complete, bit-precise including IEEE NaN/inf/subnormals.",
+    level_note="trusted: Kani/CBMC/rustc; canonical nulls only (Some(NaN) excluded, DESIGN 5.4); |MIN| of signed ints excluded from the vabs clause "
+               "(overflow panic, not a nullness change); String/&str casts and null sentinel are NOT covered (DESIGN 9)",
+    technique="Kani function-level harnesses (loop-free, full-domain symbolic scalars) on the unmodified crate",
+    not_covered=["String/&str IsNone and Cast (unbounded strings)", "u8/isize/bool have no Number impl: vabs clause not applicable"],
+    assumptions=["A-TOOLS"],
+    trusted=["kani 0.68 / cbmc 6.11", "rustc"],
+)
+
 NOT_APPLICABLE = {}
 
 
